@@ -32,7 +32,7 @@ def main():
         ok_without = "test result: ok" in out and "FAILED" not in out
         meta["demo_without_change"] = "pass" if ok_without else "FAIL"
         meta["ran"].append(f"cargo test --offline {feat} --test seed_demo   (unchanged tree): {'pass' if ok_without else 'fail'}")
-        rc, out2 = sh(f"git apply {patch}", cwd=wt)
+        rc, out2 = sh(f"git apply --ignore-whitespace {patch}", cwd=wt)
         assert rc == 0, "patch does not apply: " + out2
         os.rename(os.path.join(wt, "tests", "seed_demo.rs"), os.path.join(wt, "seed_demo.rs.aside"))
         rc, out = sh("cargo test --workspace --no-fail-fast --offline 2>&1 | grep -E '^test result|FAILED|^error' | head -20", cwd=wt)
